@@ -38,3 +38,23 @@ Qed.
 Example cert_example :
   emd_cert_ok [3; 2] [1; 1; 2] [[0; 1; 2]; [1; 0; 1]] 5 8 [[1; 0; 1]; [0; 1; 1]] [0; 1] [2; 1; 0] 2 = true.
 Proof. vm_compute. reflexivity. Qed.
+
+(* the hypotheses of weak duality / of the certificate theorem are satisfiable (same instance) *)
+Example weak_duality_hyps_example :
+  feasible 2 3 (nz [3; 2]) (nz [1; 1; 2]) 4 (mz [[1; 0; 1]; [0; 1; 1]]) /\
+  dual_feasible 2 3 (mz [[0; 1; 2]; [1; 0; 1]]) (nz [0; 1]) (nz [2; 1; 0]) 2.
+Proof.
+  split.
+  - apply (flow_ok_sound [3; 2] [1; 1; 2] [[0; 1; 2]; [1; 0; 1]] 5 8 [[1; 0; 1]; [0; 1; 1]]). vm_compute. reflexivity.
+  - apply (dual_ok_sound [3; 2] [1; 1; 2] [[0; 1; 2]; [1; 0; 1]] [0; 1] [2; 1; 0] 2). vm_compute. reflexivity.
+Qed.
+
+(* padding: the wrapper's resize of a 2x3 problem to 3x3 (added row of zeros) satisfies the
+   agreement hypothesis of padding_invariant *)
+Example padding_hyp_example :
+  forall i j, (i < length [3; 2])%nat -> (j < length [1; 1; 2])%nat ->
+    mz ([[0; 1; 2]; [1; 0; 1]] ++ [[0; 0; 0]]) i j = mz [[0; 1; 2]; [1; 0; 1]] i j.
+Proof.
+  intros i j Hi Hj. cbn [length] in *.
+  destruct i as [|[|i]]; [| |lia]; destruct j as [|[|[|j]]]; try lia; reflexivity.
+Qed.
